@@ -389,6 +389,36 @@ def int_conv_prelude_d(ctx):
     return p
 GROUPS["int_from_bvd"] = dict(name="int_from_bvd", features="#![feature(allocator_api)]", prelude=int_conv_prelude_d,
     items=lambda ctx: BVD_BASE + int_impl_j(ctx) + stub(BVD_CORE) + stub(["bvd.significant_bits"]) + with_ctx(verify(["int.try_from_bvd"]), yj_d(ctx)))
+def int_to_bvf_prelude(ctx):
+    return int_conv_prelude(ctx) + [("word_lz_vstd.rs", {"I": "{J}", "X": "_{J}"}), ("int_cast.rs", {"Y": "_{J}"})]
+GROUPS["bvf_from_int"] = dict(name="bvf_from_int", prelude=int_to_bvf_prelude,
+    items=lambda ctx: BVF_BASE + int_impl_j(ctx) + [("stub", "cast.from", {"A": "{I}", "B": "{J}"}), ("stub", "cast.to", {"A": "{I}", "B": "{J}"})] + stub(BVF_CORE) + with_ctx(verify(["int.bvf_try_from"]), YJ))
+def bvd_from_int_prelude(ctx):
+    j = ctx["J"]
+    p = BVD_VAL_PRELUDE + ["iarray.rs"]
+    if j != "u64":
+        p += [word_j(), ("value_word.rs", {"I": "{J}", "X": "_{J}"})]
+    # the array [st] is a container over J read in u64 chunks: chunk.rs for (container J, chunk u64); value bridge int_conv for (container u64, native J)
+    p += [("chunk.rs", {"I": "{J}", "J": "u64", "X": "{YJ}", "Y": ""}), ("chunk.rs", {"Y": "{YJ}"}) if j != "u64" else None, ("int_conv.rs", {"Y": "{YJ}"})]
+    return [x for x in p if x]
+GROUPS["bvd_from_int"] = dict(name="bvd_from_int", features="#![feature(allocator_api)]", prelude=bvd_from_int_prelude,
+    items=lambda ctx: BVD_BASE + int_impl_j(ctx) + stub(BVD_CORE) + [("stub", "slice.int_len", {"I": "{J}", "J": "u64", "X": "{YJ}", "Y": ""}), ("stub", "slice.get_int", {"I": "{J}", "J": "u64", "X": "{YJ}", "Y": ""})]
+        + [("verify", "int.bvd_from", {"Y": "{YJ}"})])
+def bv_int_prelude(ctx):
+    j = ctx["J"]
+    p = list(BV_VAL_PRELUDE)
+    if j != "u64":
+        p += [word_j(), ("value_word.rs", {"I": "{J}", "X": "_{J}"})]
+    p += [("int_cast.rs", {"Y": "{YJ}"})]
+    return p
+def bv_int_items(ctx):
+    yj = {"Y": "{YJ}"}
+    it = BV_BASE + int_impl_j(ctx)
+    it += [("stub", "int.try_from_bvf", yj), ("stub", "int.try_from_bvd", yj), ("decl", "int.try_from_bvd_glue"),
+           ("stub", "int.bvf_try_from", yj), ("stub", "int.bvd_from", yj)]
+    it += [("verify", "int.bv_from", yj), ("verify", "int.try_from_bv", yj)]
+    return it
+GROUPS["bv_int"] = dict(name="bv_int", features="#![feature(allocator_api)]", prelude=bv_int_prelude, items=bv_int_items)
 GROUPS["mul_theory"] = dict(name="mul_theory", prelude=lambda ctx: WORD_PRELUDE + VALUE_PRELUDE + ["value_mul.rs"], items=lambda ctx: [("decl", "decl.Bit")])
 
 def cmp_prelude(ctx):
@@ -593,6 +623,15 @@ def forms_jobs(pairs, js, bitops, arith):
     return out
 FORMS_Q = forms_jobs([("u64", "u64"), ("u8", "u64")], ["u64"], ("or",), ("add", "sub")) + forms_jobs([], ["u8"], ("xor",), ())
 FORMS_T = forms_jobs(PT, W4, ("and", "or", "xor"), ("add", "sub"))
+def yj64(j):
+    return "" if j == "u64" else "_" + j
+def int_conv_jobs(ws):
+    out = []
+    for j in ws:
+        out += [("int_from_bvf", {"I": i, "J": j}) for i in ws] + [("bvf_from_int", {"I": i, "J": j}) for i in ws]
+        out += [("int_from_bvd", {"I": "u64", "J": j}), ("bvd_from_int", {"I": "u64", "J": j, "YJ": yj64(j)}), ("bv_int", {"I": "u64", "J": j, "YJ": yj64(j)})]
+    return out + jobs("bvf_defaults", ws) + [("bvd_defaults", U64), ("bv_defaults", U64)]
+PROPS["C11"] = {"quick": int_conv_jobs(WQ), "thorough": int_conv_jobs(W4)}
 BVD_ARITH_JOBS = [("bvd_arith", dict(U64, **ARITH_D[o])) for o in ("add", "sub")]
 PROPS["C01"]["quick"] += BVD_ARITH_JOBS
 PROPS["C01"]["thorough"] += BVD_ARITH_JOBS
@@ -687,7 +726,13 @@ MANIFEST_TEXT["C10"] = dict(
           "on the verified get_int dispatch; the Hasher is modelled by an uninterpreted record `fed` and the assumption that <uN as Hash>::hash appends exactly that word (T1)." + DYN_NOTE),
     note=("Emitted as inherent generic methods hash<H: Hasher> (std's Hash trait has no contract hook). Assumed: <u8|u16|u32|u64 as Hash>::hash feeds one item equal to the word (T1). "
           "u128/usize word types: second engine only. " + TRUST_NOTE))
-dyn_only("C11", "TryFrom/From between the six native integer types and Bvf/Bvd/Bv in both directions, Bit conversions, slice conversions, against the documented length/value/error rules.", "Conversion units not yet written; D5 was found and fixed.")
+MANIFEST_TEXT["C11"] = dict(
+    text=("Proof (native types u8, u16, u32, u64; storage words u8..u64): TryFrom<uN> for Bvf<I,N> (both the wide-word and the narrow-word branch; Err(NotEnoughCapacity) exactly when the integer has more significant bits than "
+          "the capacity, otherwise length min(w, capacity), wf, VALUE == x), From<uN> for Bvd (one word, length w, value x), From<uN> for Bv (inline), TryFrom<&Bvf<I,N>> / TryFrom<&Bvd> / TryFrom<&Bv> for uN "
+          "(Err exactly when significant_bits > w, otherwise the VALUE; no reachable panic, empty vectors included) are verified at value level, on top of the verified significant_bits, get_int readers and StaticCast; "
+          "Bit <-> integer / bool conversions are verified (bit.unit). While writing these contracts the proof found D11 (Bvf::<I,0>::try_from panicked), repaired in /repo." + DYN_NOTE),
+    note=("Not under contract (second engine only): u128 and usize as native types (no bit-vector vocabulary for them; Bvd's loop really accumulates only for u128), slice conversions From<&[I]>, by-value / by-reference forwarders. "
+          "Assumed: {uN}::checked_shr / checked_shl / leading_zeros (T1, vstd's axioms for leading_zeros), A-size32 for TryFrom<uN> for Bvf (storage below 2^32 bits: the shift amount is cast to u32), the slice-level get_int (T2). " + TRUST_NOTE))
 MANIFEST_TEXT["C12"] = dict(
     text=("Proof: TryFrom<&Bvf<I1,N1>> for Bvf<I2,N2> (any two word sizes), TryFrom<&Bvd> for Bvf<I,N> and From<&Bvf<I,N>> for Bvd are verified against the contract "
           "`Err(NotEnoughCapacity) exactly when the source is LONGER than the target capacity (whatever its value); otherwise Ok with the same length, the same bit at every index below len, "
